@@ -442,7 +442,6 @@ fn run_inner(c: &Case, ctx: &mut Ctx, root: &std::path::Path, perm_ok: bool) -> 
     ctx.sig.u64(c.index_first.unwrap_or(u32::MAX) as u64 ^ ((c.index_last.unwrap_or(u32::MAX) as u64) << 32));
     ctx.sig.u64(c.style as u64 ^ ((c.sort as u64) << 8) ^ ((c.ffile_kind as u64) << 16) ^ ((c.eac.len() as u64) << 24) ^ ((c.lcs.len() as u64) << 32));
     ctx.sig.u64(c.sched.seed);
-    ctx.sched = Some(c.sched.seed);
     // write the input files
     let mut paths = vec![];
     for (fi, f) in c.files.iter().enumerate() {
